@@ -24,7 +24,7 @@ func GenC09() *rapid.Generator[C09Case] {
 	return rapid.Custom(func(t *rapid.T) C09Case {
 		c := C09Case{Sc: sg.Draw(t, "scenario"), Step: rapid.SampledFrom([]string{"A", "A", "B", "B", "C"}).Draw(t, "terminal step")}
 		c.Sc.Opts.DropOffAge = rapid.IntRange(1, 8).Draw(t, "small dropoff age") // stagnation, purges and delta coding occur
-		c.Sc.Epochs-- // the terminal step is the last turnover
+		c.Sc.Epochs--                                                            // the terminal step is the last turnover
 		return c
 	})
 }
